@@ -20,11 +20,11 @@ def margin_rule_early_exits(ctx) -> List[Dict[str, Any]]:
     fn = ctx.func(f"{MARGIN}.MarginLoans._check_margin_level")
     raises = [n for n in C.walk_shallow(fn.node) if isinstance(n, ast.Raise)]
     ctx.require(raises, "_check_margin_level has no raise")
-    first_raise = min(r.lineno for r in raises)
+    first_raise = min(A.seq(r) for r in raises)
     borrowed_param = fn.params[3]
     out = []
     for n in C.walk_shallow(fn.node):
-        if not (isinstance(n, ast.If) and n.lineno < first_raise and any(isinstance(b, ast.Return) for b in n.body)):
+        if not (isinstance(n, ast.If) and A.seq(n) < first_raise and any(isinstance(b, ast.Return) for b in n.body)):
             continue
         ent: Dict[str, Any] = {"node": n, "table": None, "fn": fn}
         t = n.test
